@@ -308,9 +308,30 @@ func ruleFIELD1(c *Ctx) {
 		c.Undecide("json.makeStructFields", "function missing")
 	} else {
 		info := f.Info()
+		// makeStructFields and the private phases it may have been split into
+		var scopeBodies []ast.Node
+		for _, g := range p.CalleeClosure(f, 2) {
+			if g.Decl != nil && g.Body() != nil {
+				scopeBodies = append(scopeBodies, g.Body())
+			}
+		}
+		allCalls := func() []*ast.CallExpr {
+			var out []*ast.CallExpr
+			for _, b := range scopeBodies {
+				out = append(out, findAllDeep[*ast.CallExpr](b)...)
+			}
+			return out
+		}
+		allIfs := func() []*ast.IfStmt {
+			var out []*ast.IfStmt
+			for _, b := range scopeBodies {
+				out = append(out, findAllDeep[*ast.IfStmt](b)...)
+			}
+			return out
+		}
 		okCmp := false
 		got := ""
-		for _, call := range findAllDeep[*ast.CallExpr](f.Body()) {
+		for _, call := range allCalls() {
 			if cf := Callee(info, call); cf == nil || QualName(cf) != "slices.SortStableFunc" || len(call.Args) != 2 {
 				continue
 			}
@@ -351,7 +372,7 @@ func ruleFIELD1(c *Ctx) {
 		c.Oblige("fields:dominance-order", f.Pos(), okCmp, "candidate fields are ordered by ["+got+"], documented order is name, then depth (index length), then explicit name")
 		// keep only dominant
 		okKeep := false
-		for _, ifs := range findAll[*ast.IfStmt](f.Body()) {
+		for _, ifs := range allIfs() {
 			uses := map[string]bool{}
 			ast.Inspect(ifs.Cond, func(nd ast.Node) bool {
 				if e, ok := nd.(ast.Expr); ok {
@@ -377,7 +398,7 @@ func ruleFIELD1(c *Ctx) {
 		c.Oblige("fields:keep-only-dominant", f.Pos(), okKeep, "no `n == 1 || depth differs || explicit-name differs` test when collapsing same-named fields")
 		// final order: by index (depth-first); ids by breadth-first order
 		finalIdx := false
-		for _, call := range findAllDeep[*ast.CallExpr](f.Body()) {
+		for _, call := range allCalls() {
 			if cf := Callee(info, call); cf != nil && QualName(cf) == "slices.Compare" && len(call.Args) == 2 {
 				if fld := SelField(info, call.Args[0]); fld != nil && fld.Name() == "index" {
 					finalIdx = true
